@@ -469,7 +469,10 @@ pub fn c06_case(seed: u64, idx: u64) -> Option<(Model, String, String)> {
     }
     if rng.chance(0.3) {
         confusable_terminal_names(&mut m, &mut rng);
+    } else if rng.chance(0.3) {
+        crate::model::shuffle_names(&mut m, &mut rng);
     }
+    crate::model::vary_member_names(&mut m, &mut rng);
     let src = m.render();
     let lib = format!("#![allow(warnings)]\npub struct Pay(pub usize);\npub mod gen;\n{}", client_source(&m));
     Some((m, src, lib))
